@@ -345,7 +345,7 @@ func (cs *ContractSet) parseContractFile(path, pkgPath string, external bool) er
 				}
 			case "ghost":
 				// ghost var name type = expr
-				m := regexp.MustCompile(`^var\s+(\w+)\s+(\w+)\s*=\s*(.*)$`).FindStringSubmatch(rest)
+				m := regexp.MustCompile(`^var\s+(\w+)\s+([\w.*\[\]]+)\s*=\s*(.*)$`).FindStringSubmatch(rest)
 				if m == nil {
 					return fail(l, "bad ghost declaration")
 				}
